@@ -131,7 +131,8 @@ func HandleGasError(ctx sdk.Context, contract *vm.Contract, initialGas sdk.Gas, 
 func (p Precompile) emptyCallData(contract *vm.Contract) (method *abi.Method, err error) {
 	switch {
 	// Case 1.1: Send call or transfer tx - 'receive' is called if present and value is transferred
-	case contract.Value().Sign() > 0 && p.HasReceive():
+	// (a DELEGATECALL frame carries no value: contract.Value() is nil there)
+	case contract.Value() != nil && contract.Value().Sign() > 0 && p.HasReceive():
 		return &p.Receive, nil
 	// Case 1.2: Either 'receive' is not present, or no value is transferred - call 'fallback' if present
 	case p.HasFallback():
